@@ -1147,6 +1147,7 @@ impl ThetaSketch {
     /// Verification hook: offers a chosen 63-bit hash exactly as `update` offers a computed
     /// one (screened against theta, then inserted). Returns whether it was newly inserted.
     pub fn verif_insert_hash(&mut self, hash: u64) -> bool {
+        self.table.verif_mark_offered();
         if hash == 0 || hash >= self.table.theta() {
             return false;
         }
